@@ -509,15 +509,15 @@ static int parse_list(const char *s, int *out, int max, int all_n)
 	return n;
 }
 
-#ifdef __SANITIZE_ADDRESS__
-#include <sanitizer/common_interface_defs.h>
-static void on_death(void)
+/* sanitizer reports end in abort() (ASAN/UBSAN_OPTIONS abort_on_error=1): name the case that was running */
+#include <signal.h>
+static void on_abort(int sig)
 {
-	/* a sanitizer report is about to kill the driver: name the case */
+	(void)sig;
 	fprintf(res, "CRASH | %s\n", trace_fn ? trace_fn() : "-");
 	fflush(res);
+	_exit(96);
 }
-#endif
 
 NOSAN static int do_bfs(int argc, char **argv)
 {
@@ -779,9 +779,7 @@ int main(int argc, char **argv)
 	int fd = dup(1);
 	res = fdopen(fd, "w");
 	if (!freopen("/dev/null", "w", stdout)) return 3;
-#ifdef __SANITIZE_ADDRESS__
-	__sanitizer_set_death_callback(on_death);
-#endif
+	signal(SIGABRT, on_abort);
 	init_template();
 	build_sets();
 	if (argc < 2) return 2;
